@@ -7,11 +7,33 @@ open CdnsVerif.Model.Table CdnsVerif.Driver
 
 def tnames : List String := ["ip", "nr", "ct", "qs", "ql", "qq", "rl", "rr", "md"]
 
+/-- the items of a block and the read cursors of `CdnsBlockRead` (client ports of query/responses and malformed messages,
+    address-event type ↦ count; `ca` = the address events were read to the end) -/
+structure Items where
+  q : List String := []
+  m : List String := []
+  a : List (Nat × Nat) := []
+  cq : Nat := 0
+  cm : Nat := 0
+  ca : Bool := false
+
 /-- a block = its nine tables, each in its own heap cell -/
 structure St where
   heap : Heap String
   blocks : List (Nat × List (String × Table))     -- block id ↦ table name ↦ table
   nextCell : Nat
+  items : List (Nat × Items) := []
+
+def getItems (s : St) (b : Nat) : Items := ((s.items.find? (·.1 == b)).map (·.2)).getD {}
+def setItems (s : St) (b : Nat) (it : Items) : St := { s with items := (b, it) :: s.items.filter (·.1 != b) }
+
+def bumpA (k : Nat) : List (Nat × Nat) → List (Nat × Nat)
+  | [] => [(k, 1)]
+  | (k', n) :: rest => if k' = k then (k', n + 1) :: rest else (k', n) :: bumpA k rest
+
+def insertSorted (x : String) : List String → List String
+  | [] => [x]
+  | y :: ys => if x < y then x :: y :: ys else y :: insertSorted x ys
 
 def hashS : Hash String := { stored := fun _ v => v.length, probe := fun v => v.length }
 
@@ -24,7 +46,7 @@ def newBlock (s : St) (b : Nat) : St :=
   let (heap, ts, next) := tnames.foldl (fun (acc : Heap String × List (String × Table) × Nat) n =>
     let (h, t) := fresh acc.1 acc.2.2
     (h, acc.2.1 ++ [(n, t)], acc.2.2 + 1)) (s.heap, [], s.nextCell)
-  setBlock { s with heap := heap, nextCell := next } b ts
+  setItems (setBlock { s with heap := heap, nextCell := next } b ts) b {}
 
 def destroyBlock (s : St) (b : Nat) : St :=
   match getBlock s b with
@@ -40,7 +62,9 @@ def copyBlock (s : St) (dst src : Nat) : Option St := do
     match copy hashS acc.1 t acc.2.2.1 with
     | .ok (h, t') => (h, acc.2.1 ++ [(n, t')], acc.2.2.1 + 1, acc.2.2.2)
     | .dangling => (acc.1, acc.2.1, acc.2.2.1, false)) (s1.heap, [], s1.nextCell, true)
-  if ok then some (setBlock { s1 with heap := heap, nextCell := next } dst nts) else none
+  -- the items are copied; a copy starts reading at the beginning
+  let it := getItems s src
+  if ok then some (setItems (setBlock { s1 with heap := heap, nextCell := next } dst nts) dst { q := it.q, m := it.m, a := it.a }) else none
 
 def tableOf (ts : List (String × Table)) (n : String) : Option Table := (ts.find? (·.1 == n)).map (·.2)
 def setTable (ts : List (String × Table)) (n : String) (t : Table) : List (String × Table) :=
@@ -56,13 +80,58 @@ def stepTok (s : St) (tok : String) : St × String :=
       let (heap, ts') := ts.foldl (fun (acc : Heap String × List (String × Table)) (n, t) =>
         let (h, t') := clear acc.1 t
         (h, acc.2 ++ [(n, t')])) (s.heap, [])
-      (setBlock { s with heap := heap } b ts', "ok")
+      (setItems (setBlock { s with heap := heap } b ts') b {}, "ok")
     | none => (s, "E")
   | ["cp", d, sr, _how] =>
     match d.toNat?, sr.toNat? with
     | some d, some sr => match copyBlock s d sr with | some s' => (s', "ok") | none => (s, "E")
     | _, _ => (s, "bad-op")
   | ["w", _] => (s, "-")
+  | ["iq", b, port] =>
+    match b.toNat? >>= fun b => (getBlock s b).map (b, ·) with
+    | some (b, _) => let it := getItems s b; (setItems s b { it with q := it.q ++ [port] }, "ok")
+    | none => (s, "E")
+  | ["im", b, port] =>
+    match b.toNat? >>= fun b => (getBlock s b).map (b, ·) with
+    | some (b, _) => let it := getItems s b; (setItems s b { it with m := it.m ++ [port] }, "ok")
+    | none => (s, "E")
+  | ["ia", b, ty] =>
+    match b.toNat? >>= fun b => (getBlock s b).map (b, ·), ty.toNat? with
+    | some (b, ts), some ty =>
+      -- the event's address goes through the address table like any other
+      match tableOf ts "ip" with
+      | none => (s, "bad-op")
+      | some t =>
+        match add hashS s.heap t "x7f000001" with
+        | .ok (h, t', _) =>
+          let s1 := setBlock { s with heap := h } b (setTable ts "ip" t')
+          let it := getItems s1 b
+          (setItems s1 b { it with a := bumpA ty it.a }, "ok")
+        | .dangling => (s, "DANGLING")
+    | _, _ => (s, "E")
+  | ["rq", b] =>
+    match b.toNat? >>= fun b => (getBlock s b).map (b, ·) with
+    | some (b, _) =>
+      let it := getItems s b
+      match it.q[it.cq]? with
+      | some p => (setItems s b { it with cq := it.cq + 1 }, p)
+      | none => (s, "end")
+    | none => (s, "E")
+  | ["rm", b] =>
+    match b.toNat? >>= fun b => (getBlock s b).map (b, ·) with
+    | some (b, _) =>
+      let it := getItems s b
+      match it.m[it.cm]? with
+      | some p => (setItems s b { it with cm := it.cm + 1 }, p)
+      | none => (s, "end")
+    | none => (s, "E")
+  | ["RA", b] =>
+    match b.toNat? >>= fun b => (getBlock s b).map (b, ·) with
+    | some (b, _) =>
+      let it := getItems s b
+      let shown := (it.a.map fun (k, n) => s!"{k}*{n}").foldl (fun acc x => insertSorted x acc) []
+      (setItems s b { it with ca := true }, if it.ca || it.a.isEmpty then "-" else ",".intercalate shown)
+    | none => (s, "E")
   | [op, b, arg] =>
     let k := op.take 1 |>.toString
     let tn := op.drop 1 |>.toString
